@@ -15,13 +15,36 @@ import (
 // go/ssa does no CSE, so repeated loads of one field path render identically (and are
 // treated as one term by the rules that compare renders — sound only where no store to
 // that path intervenes, which the rules that rely on it check separately).
-func Render(v ssa.Value) string { return renderWith(v, nil) }
+func Render(v ssa.Value) string { return renderWith(v, defaultResolver) }
+
+// defaultResolver, when set, is applied by Render (used to re-render path atoms of a callee in the caller's terms).
+var defaultResolver func(ssa.Value) ssa.Value
+
+// NormAtomSubst normalises a condition of a callee with its parameters replaced by the caller's values.
+func NormAtomSubst(v ssa.Value, val bool, sub map[ssa.Value]ssa.Value) Atom {
+	old := defaultResolver
+	defaultResolver = func(x ssa.Value) ssa.Value {
+		for i := 0; i < 4; i++ {
+			y, ok := sub[x]
+			if !ok {
+				break
+			}
+			x = y
+		}
+		return x
+	}
+	defer func() { defaultResolver = old }()
+	return NormAtom(v, val)
+}
 
 // RenderOnPath renders v with phis and spilled local cells resolved along the given path.
 func RenderOnPath(v ssa.Value, p *Path) string {
 	return renderWith(v, func(x ssa.Value) ssa.Value {
 		for i := 0; i < 6; i++ {
 			y := resolvePhi(spillOnPath(x, p.Blocks), p.Blocks)
+			if s, ok := p.Sub[y]; ok {
+				y = s
+			}
 			if y == x {
 				break
 			}
@@ -324,6 +347,9 @@ type Path struct {
 	ResVals []ssa.Value
 	Panic   bool
 	Loop    bool
+	// Sub is set on paths of EnumPathsX: helper parameters → arguments, results of expanded calls → returned values
+	Sub      map[ssa.Value]ssa.Value
+	expanded map[*ssa.Call]bool
 }
 
 func (p *Path) Has(atom string) bool {
@@ -452,7 +478,17 @@ func resolvePhi(v ssa.Value, blocks []*ssa.BasicBlock) ssa.Value {
 }
 
 // ResolveOnPath resolves phis in v along a path's blocks.
-func ResolveOnPath(v ssa.Value, p *Path) ssa.Value { return resolvePhi(v, p.Blocks) }
+func ResolveOnPath(v ssa.Value, p *Path) ssa.Value {
+	v = resolvePhi(v, p.Blocks)
+	for i := 0; i < 6; i++ {
+		s, ok := p.Sub[v]
+		if !ok {
+			break
+		}
+		v = resolvePhi(s, p.Blocks)
+	}
+	return v
+}
 
 // Dominates reports whether instruction a dominates instruction b (same function).
 func Dominates(a, b ssa.Instruction) bool {
@@ -792,4 +828,187 @@ func canonicalCell(v ssa.Value) string {
 		}
 	}
 	return ""
+}
+
+// ---------------------------------------------------------------------------
+// Interprocedural paths: EnumPathsX is EnumPaths with every call of a helper that the rules do not know by name (a function of
+// the module outside KnownFuncs, not recursive, not a single pure expression — those are read through by the renderer) replaced
+// by each of the helper's returning paths. The helper's conditions join the path's atoms with its parameters replaced by the
+// arguments; the path's own conditions on the call's results are re-read with the values the helper returned on that path, and
+// combinations that compare a constant with a different constant are dropped. Blocks of the helper are inserted after the block
+// of the call so that Passes sees its instructions.
+// ---------------------------------------------------------------------------
+
+// XSub of an expanded path: helper parameters → arguments, call results → returned values.
+type xsub map[ssa.Value]ssa.Value
+
+func (s xsub) resolve(v ssa.Value) ssa.Value {
+	for i := 0; i < 6; i++ {
+		y, ok := s[v]
+		if !ok {
+			break
+		}
+		v = y
+	}
+	return v
+}
+
+func spliceable(fn, callee *ssa.Function) bool {
+	if callee == nil || callee == fn || callee.Pkg == nil || len(callee.Blocks) == 0 || KnownFuncs[callee.String()] {
+		return false
+	}
+	if !strings.HasPrefix(callee.Pkg.Pkg.Path(), "github.com/b2broker/simplefix-go") {
+		return false
+	}
+	if _, _, pure := pureExprOf(callee); pure {
+		return false
+	}
+	return true
+}
+
+// EnumPathsX: see above. depth bounds nesting of helpers.
+func EnumPathsX(fn *ssa.Function, max int) ([]*Path, bool) {
+	return enumPathsX(fn, max, 0, map[*ssa.Function]bool{fn: true})
+}
+
+func enumPathsX(fn *ssa.Function, max, depth int, stack map[*ssa.Function]bool) ([]*Path, bool) {
+	base, over := EnumPaths(fn, max)
+	if depth > 2 {
+		return base, over
+	}
+	var out []*Path
+	for _, p := range base {
+		out = append(out, expandPath(fn, p, max, depth, stack)...)
+		if len(out) > max {
+			return out[:max], true
+		}
+	}
+	return out, over
+}
+
+func expandPath(fn *ssa.Function, p *Path, max, depth int, stack map[*ssa.Function]bool) []*Path {
+	// the first call of a spliceable helper on the path
+	var call *ssa.Call
+	var at int
+	for i, b := range p.Blocks {
+		if b.Parent() != fn {
+			continue
+		}
+		for _, in := range b.Instrs {
+			if c, ok := in.(*ssa.Call); ok && call == nil {
+				if cal := StaticCallee(&c.Call); spliceable(fn, cal) && !stack[cal] && !p.expanded[c] {
+					call, at = c, i
+				}
+			}
+		}
+		if call != nil {
+			break
+		}
+	}
+	if call == nil {
+		return []*Path{p}
+	}
+	callee := StaticCallee(&call.Call)
+	stack[callee] = true
+	qs, _ := enumPathsX(callee, 256, depth+1, stack)
+	delete(stack, callee)
+	var out []*Path
+	for _, q := range qs {
+		if q.Return == nil || q.Loop {
+			continue
+		}
+		sub := xsub{}
+		for k, v := range p.Sub {
+			sub[k] = v
+		}
+		for k, v := range q.Sub {
+			sub[k] = v
+		}
+		for i, prm := range callee.Params {
+			if i < len(call.Call.Args) {
+				sub[prm] = resolvePhi(spillOnPath(call.Call.Args[i], p.Blocks), p.Blocks)
+			}
+		}
+		// results: the call value (single result) and its extracts
+		if len(q.ResVals) == 1 {
+			sub[call] = Unspill(q.ResVals[0])
+		}
+		if call.Referrers() != nil {
+			for _, ref := range *call.Referrers() {
+				if ex, ok := ref.(*ssa.Extract); ok && ex.Index < len(q.ResVals) {
+					sub[ex] = Unspill(q.ResVals[ex.Index])
+				}
+			}
+		}
+		np := &Path{Return: p.Return, Panic: p.Panic, Loop: p.Loop, Sub: sub, expanded: map[*ssa.Call]bool{call: true}}
+		for c := range p.expanded {
+			np.expanded[c] = true
+		}
+		np.Blocks = append(np.Blocks, p.Blocks[:at+1]...)
+		np.Blocks = append(np.Blocks, q.Blocks...)
+		np.Blocks = append(np.Blocks, p.Blocks[at+1:]...)
+		feasible := true
+		addAtom := func(a Atom) {
+			na := NormAtomSubst(a.Val, a.Taken, sub)
+			// constant against constant decides itself
+			if bo, ok := a.Val.(*ssa.BinOp); ok && (bo.Op == token.EQL || bo.Op == token.NEQ) {
+				x, y := sub.resolve(bo.X), sub.resolve(bo.Y)
+				cx, okx := x.(*ssa.Const)
+				cy, oky := y.(*ssa.Const)
+				if okx && oky {
+					same := (cx.Value == nil && cy.Value == nil) || (cx.Value != nil && cy.Value != nil && cx.Value.ExactString() == cy.Value.ExactString())
+					holds := same == (bo.Op == token.EQL)
+					if holds != a.Taken {
+						feasible = false
+					}
+					return
+				}
+				// a freshly made non-nil value compared with nil
+				if oky && cy.Value == nil && neverNil(x) || okx && cx.Value == nil && neverNil(y) {
+					holds := bo.Op == token.NEQ
+					if holds != a.Taken {
+						feasible = false
+					}
+					return
+				}
+			}
+			np.Atoms = append(np.Atoms, na)
+		}
+		// the caller's atoms up to the call, the helper's, the caller's after it (order matters only for display)
+		for _, a := range p.Atoms {
+			addAtom(a)
+		}
+		for _, a := range q.Atoms {
+			addAtom(a)
+		}
+		if !feasible {
+			continue
+		}
+		for _, rv := range p.ResVals {
+			r := sub.resolve(resolvePhi(spillOnPath(rv, p.Blocks), p.Blocks))
+			np.ResVals = append(np.ResVals, r)
+			np.Results = append(np.Results, RenderSubst(r, sub))
+		}
+		out = append(out, expandPath(fn, np, max, depth, stack)...)
+		if len(out) > max {
+			break
+		}
+	}
+	return out
+}
+
+// neverNil: the value is a call that constructs an error or a value (fmt.Errorf, errors.New) or an allocation.
+func neverNil(v ssa.Value) bool {
+	switch x := v.(type) {
+	case *ssa.Alloc, *ssa.MakeInterface, *ssa.MakeClosure, *ssa.MakeSlice, *ssa.MakeMap, *ssa.MakeChan:
+		return true
+	case *ssa.Call:
+		if cal := StaticCallee(&x.Call); cal != nil && cal.Pkg != nil {
+			switch cal.Pkg.Pkg.Path() + "." + cal.Name() {
+			case "fmt.Errorf", "errors.New":
+				return true
+			}
+		}
+	}
+	return false
 }
